@@ -234,7 +234,8 @@ pub fn worker(a: WorkerArgs) -> i32 {
         if !r.violations.is_empty() {
             out.violation_count += r.violations.len() as u64;
             for v in &r.violations {
-                if seen_sigs.contains(&v.signature) || seen_sigs.len() >= 8 {
+                // (determinism audits only need digests: SIM_NO_MINIMISE skips shrinking and replay files)
+                if seen_sigs.contains(&v.signature) || seen_sigs.len() >= 8 || std::env::var_os("SIM_NO_MINIMISE").is_some() {
                     continue;
                 }
                 seen_sigs.insert(v.signature.clone());
